@@ -503,7 +503,10 @@ def months_inc(start_date, months, eomonth=False):
         return NUM_ERROR
     y, m, d = date_from_int(start_date)
     if eomonth:
-        return date(y, m + months + 1, 1) - 1
+        y, m, d = normalize_year(y, m + months, 1)
+        if y < 1900:
+            return NUM_ERROR
+        return date(y, m, max_days_in_month(m, y))
     else:
         return date(y, m + months, d)
 
